@@ -6,7 +6,15 @@ package expandapk
 import (
 	"context"
 	"io"
+
+	"chainguard.dev/apko/pkg/apk/internal/tarfs"
 )
 
 // VerifCheckSums calls checkSums (the per-file checksum pass over a data section).
 func VerifCheckSums(ctx context.Context, r io.Reader) error { return checkSums(ctx, r) }
+
+// VerifTarIndex calls the tar indexer ExpandApk applies to the control and data sections.
+func VerifTarIndex(r io.ReaderAt, size int64) error {
+	_, err := tarfs.New(r, size)
+	return err
+}
